@@ -234,3 +234,69 @@ def _finalize_mapping():
 
 
 REG.finite_check('C14.finalize-cause-to-state', _finalize_mapping, ['C14'], 'agent/agent_0.py:Agent_0.finalize')
+
+
+# ------------------------------------------------------------------------------
+# PMGRLaunchingComponent.work, the launch of one (resource, schema) bucket: every pilot
+# of the bucket - and no other - is reported once, PMGR_ACTIVE_PENDING if the bulk
+# launch went through and FAILED if it raised (C14: a pilot ends FAILED only for its
+# own reason)
+import z3 as _z3
+from pyvc import core as _C
+from pyvc.core import Val as _Val, coerce as _coerce
+
+LPDescr = T.Rec('LPDescr', resource=T.Str, access_schema=T.Str)
+LPilot  = T.Rec('LPilot', uid=T.Str, state=OStr, description=LPDescr)
+LPilotL = T.List(LPilot)
+LPAdv   = T.Rec('LPAdv', uid=T.Str, state=OStr)
+
+def _lp_advance(ex, node, st):
+    things = _coerce(ex.ev(node.args[0], st), LPilotL)
+    state  = _coerce(ex.ev(node.args[1], st), OStr)
+    log = ex.get_var(st, 'ladv')
+    lty = log.ty
+    l0, n = lty.len(log.term), LPilotL.len(things.term)
+    i = _z3.Int(_C.fresh_name('i'))
+    out = ex.fresh_wf(st, lty, 'ladv')
+    st.assume(lty.len(out.term) == l0 + n)
+    st.assume(_z3.ForAll([i], _z3.Implies(_z3.And(0 <= i, i < l0), _z3.Select(lty.arr(out.term), i) == _z3.Select(lty.arr(log.term), i))))
+    st.assume(_z3.ForAll([i], _z3.Implies(_z3.And(l0 <= i, i < l0 + n),
+              _z3.Select(lty.arr(out.term), i) == LPAdv.mk(LPilot.get(_z3.Select(LPilotL.arr(things.term), i - l0), 'uid'), state.term)),
+              patterns=[_z3.Select(lty.arr(out.term), i)]))
+    st.env['ladv'] = out
+    return _C.NONE
+_lp_advance.mutates = ('ladv',)
+
+def _lp_launch(ex, node, st):
+    """self._start_pilot_bulk(resource, schema, pilots): stages and submits, or raises"""
+    e = st.fork(); e.guards = []
+    e.env = dict(e.env)
+    e.env['launch_failed'] = _Val(T.Bool, _z3.BoolVal(True))
+    ex.exits.append(('Exception', e, ex.cur_line))
+    return _C.NONE
+_lp_launch.mutates = ('launch_failed',)
+
+REG.define('lp_bucket(b, r, s)', 'at(at(b, r), s)')
+
+REG.spec('pmgr/launching/base.py:PMGRLaunchingComponent.work#bucket',
+    fragment = 'try:',
+    # `pilots` is live here (the whole input bulk): a free variable of the statement
+    params   = dict(buckets=T.Map(T.Str, T.Map(T.Str, LPilotL)), resource=T.Str, schema=T.Str, pilots=LPilotL),
+    ghost    = dict(ladv=T.List(LPAdv), launch_failed=T.Bool),
+    locals   = dict(pids=T.List(T.Str)),
+    calls    = {'self._start_pilot_bulk': _lp_launch},
+    effects  = {'self.advance': _lp_advance},
+    requires = ['indom(buckets, resource)', 'indom(at(buckets, resource), schema)', 'not launch_failed'],
+    modifies = ['ladv', 'launch_failed', 'pilots'],
+    raises   = {},
+    no_raise_is_property = True,
+    ensures  = [
+      ('every-pilot-of-this-bucket-and-no-other-is-reported-once',
+       'len(ladv) == len(old(ladv)) + len(lp_bucket(buckets, resource, schema)) and '
+       'forall(lambda i: implies(0 <= i < len(lp_bucket(buckets, resource, schema)), '
+       'ladv[len(old(ladv)) + i].uid == lp_bucket(buckets, resource, schema)[i].uid))'),
+      ('failed-only-if-the-launch-of-its-own-bucket-raised',
+       'forall(lambda k: implies(len(old(ladv)) <= k < len(ladv), ladv[k].state == ite(launch_failed, FAILED, rps.PMGR_ACTIVE_PENDING)))'),
+      ('earlier-reports-kept', 'forall(lambda k: implies(0 <= k < len(old(ladv)), ladv[k] == old(ladv)[k]))'),
+    ],
+    serves   = ['C14'])
